@@ -83,6 +83,7 @@ def generate(seed_: int, run: int, info: dict) -> dict:
         knobs = {
             "kills": rng.choice([0, 1, 1, 2]) if fault_mode else 0,
             "errors": rng.choice([0, 0, 1]) if fault_mode else 0,
+            "syscall_errors": rng.random() < 0.4,
             "chunk_modes": chunk_modes,
             "w_stay": rng.choice([1, 4, 16]),
             "w_none": rng.choice([15, 40, 120]),
@@ -339,6 +340,7 @@ class Context:
         fired = {"kill": 0, "error": 0, "switch": 0}
         probes: dict[str, int] = {}
         kill_sites: dict[str, int] = {}
+        error_sites: dict[str, int] = {}
         statuses: dict[str, int] = {}
         steps = 0
         for ph in out["phases"]:
@@ -349,6 +351,8 @@ class Context:
                 probes[k] = probes.get(k, 0) + n
             for k, n in ph["kill_sites"].items():
                 kill_sites[k] = kill_sites.get(k, 0) + n
+            for k, n in ph.get("error_sites", {}).items():
+                error_sites[k] = error_sites.get(k, 0) + n
             for r in ph["results"]:
                 key = ("verify:" if r["verify"] else "") + r["status"]
                 statuses[key] = statuses.get(key, 0) + 1
@@ -358,7 +362,7 @@ class Context:
                 probes["phase_ended_with_zero_length_pkl"] = probes.get("phase_ended_with_zero_length_pkl", 0) + 1
         phases = workload["phases"]
         return {
-            "steps": steps, "fired": fired, "probes": probes, "kill_sites": kill_sites,
+            "steps": steps, "fired": fired, "probes": probes, "kill_sites": kill_sites, "error_sites": error_sites,
             "statuses": statuses,
             "cfgs": [p["cfg"] for p in phases],
             "n_actors": sum(len(p["actors"]) for p in phases),
@@ -385,6 +389,7 @@ def coverage(records: list[dict], extras: list[dict], options: dict) -> dict:
             dst[k] = dst.get(k, 0) + n
 
     fired, armed, probes, kill_sites, statuses, cfgs = {}, {}, {}, {}, {}, {}
+    error_sites: dict = {}
     steps = 0
     signatures = set()
     nontrivial = set()
@@ -396,6 +401,7 @@ def coverage(records: list[dict], extras: list[dict], options: dict) -> dict:
         add(armed, st["armed"])
         add(probes, st["probes"])
         add(kill_sites, st["kill_sites"])
+        add(error_sites, st.get("error_sites", {}))
         add(statuses, st["statuses"])
         for c in st["cfgs"]:
             cfgs[c] = cfgs.get(c, 0) + 1
@@ -443,6 +449,7 @@ def coverage(records: list[dict], extras: list[dict], options: dict) -> dict:
         "faults_armed": armed,
         "faults_fired": fired,
         "kill_sites": kill_sites,
+        "injected_oserror_sites": error_sites,
         "reach_probes": {k: v for k, v in sorted(probes.items()) if not k.startswith("hit:")},
         "cache_hits_by_expression": {k[4:]: v for k, v in sorted(probes.items()) if k.startswith("hit:")},
         "call_outcomes": statuses,
